@@ -661,7 +661,7 @@ def rule_orthogonal_indexer(ctx, rid='R8'):
                 raise Undecided('np.ix_ on %r' % (a,))
         return [Kind('IX') for _ in args]
     ext = {'canonicalize_indexer': lambda args, kw: tuple(args[0]), 'np.ix_': ix_, '_expand_slice': lambda args, kw: Kind('ARR')}
-    for n in range(1, 5):
+    for n in range(1, 7 if ctx.tier == 'thorough' else 5):          # thorough: key patterns up to 6 dimensions (5460 patterns)
         for pat in itertools.product(['INT', 'FULL', 'SL', 'ARR'], repeat=n):
             interp = Interp(ext, kind_types)
             env = {}
@@ -720,8 +720,8 @@ def rule_expanded_indexer(ctx):
     fi = ctx.fn(IDX + 'expanded_indexer')
     kind_types = {'X': set(), 'ELLIPSIS': set(), 'FULL': {'slice'}}
     nbad = 0
-    for ndim in range(0, 5):
-        for n in range(0, 5):
+    for ndim in range(0, 7 if ctx.tier == 'thorough' else 5):
+        for n in range(0, 7 if ctx.tier == 'thorough' else 5):
             for pat in itertools.product(['X', 'ELLIPSIS'], repeat=n):
                 if pat.count('ELLIPSIS') > 2:
                     continue
